@@ -609,10 +609,17 @@ func runScenario(sc *scenario, scratch string) (*vtrace.Trace, error) {
 	}
 	for _, r := range w.refs {
 		m := 1
-		if sc.Opts.RefFilter != "" && w.nodes[r[0]].AType != sc.Opts.RefFilter {
-			m = 0
+		if sc.Opts.RefFilter != "" || sc.Opts.RefFilter2 != "" {
+			// the union of what the filter options select
+			at := w.nodes[r[0]].AType
+			m = b2i((sc.Opts.RefFilter != "" && at == sc.Opts.RefFilter) || (sc.Opts.RefFilter2 != "" && at == sc.Opts.RefFilter2))
 		}
 		rec.emit(vtrace.Event{"ev": "referrer", "r": r[0], "s": r[1], "match": m})
+	}
+	if w.refsTgt != "" {
+		for _, k := range w.order {
+			rec.emit(vtrace.Event{"ev": "alias", "q": refPfx + k, "n": k, "pfx": refPfx})
+		}
 	}
 	for _, d := range w.dtags {
 		rec.emit(vtrace.Event{"ev": "dtag", "t": d.Sym, "on": d.Of, "to": d.To, "fb": b2i(d.FB)})
@@ -656,7 +663,7 @@ func runScenario(sc *scenario, scratch string) (*vtrace.Trace, error) {
 		"srcdir":  b2i(w.srcIsDir), "tgtdir": b2i(w.tgtIsDir),
 		"force": b2i(sc.Opts.Force != 0), "referrers": b2i(sc.Opts.Referrers != 0), "dtags": b2i(sc.Opts.DTags != 0),
 		"inclext": b2i(sc.Opts.InclExt != 0), "fast": b2i(sc.Opts.Fast != 0), "plats": b2i(len(plats) > 0),
-		"tagged": b2i(sc.TgtByDigest == 0), "faultfree": b2i(faultfree), "transient": b2i(transient),
+		"tagged": b2i(sc.TgtByDigest == 0), "faultfree": b2i(faultfree), "transient": b2i(transient), "reftgt": b2i(w.refsTgt != ""),
 	}
 
 	// ----- the client under test
@@ -692,10 +699,22 @@ func runScenario(sc *scenario, scratch string) (*vtrace.Trace, error) {
 		opts = append(opts, regclient.ImageWithForceRecursive())
 	}
 	if sc.Opts.Referrers != 0 {
-		if sc.Opts.RefFilter != "" {
-			opts = append(opts, regclient.ImageWithReferrers(scheme.WithReferrerMatchOpt(descriptor.MatchOpt{ArtifactType: sc.Opts.RefFilter})))
-		} else {
+		n := 0
+		for _, f := range []string{sc.Opts.RefFilter, sc.Opts.RefFilter2} {
+			if f != "" {
+				opts = append(opts, regclient.ImageWithReferrers(scheme.WithReferrerMatchOpt(descriptor.MatchOpt{ArtifactType: f})))
+				n++
+			}
+		}
+		if n == 0 {
 			opts = append(opts, regclient.ImageWithReferrers())
+		}
+		if w.refsTgt != "" {
+			rRef, err := ref.New(w.refsTgt)
+			if err != nil {
+				return nil, fmt.Errorf("referrer target ref: %w", err)
+			}
+			opts = append(opts, regclient.ImageWithReferrerTgt(rRef))
 		}
 	}
 	if sc.Opts.DTags != 0 {
